@@ -20,6 +20,7 @@ MarshalDemands(e) ==
     <<"C04.map",        BackIs(e.cm, n)>>,
     <<"C04.string_back", BackIs(e.ps, n)>>,
     \* one read buffer: the size in bytes, then refilled with its neighbour (last digit's parity flipped)
+    <<"C04.pretty_twice", BackIs(e.pp1, n) /\ BackIs(e.pp2, n) /\ e.ppkept>>,
     <<"C04.reuse",      BackIs(e.reuse1, n) /\ BackIs(e.reuse2, [n EXCEPT ![Len(n)] = IF @ % 2 = 0 THEN @ + 1 ELSE @ - 1])>>,
     <<"C04.pretty_back", BackIs(e.pp, n)>>,
     <<"C04.text_meaning", ParseSizeTextRef(mtb, 0) = Ok(n)>>,
